@@ -56,7 +56,10 @@ Model (plain dicts / lists, JSON friendly)::
             mlig    "marks", "ligs": {glyph: [{class: (x, y)}, ... per component]}
 """
 
+from fractions import Fraction as _F
+
 BASE, LIG, MARK, COMP = 1, 2, 3, 4
+F_HALF, F_EPS = _F(1, 2), _F(1, 200)
 MAX_NEST = 6
 
 
@@ -230,9 +233,11 @@ class Interp(object):
         return [(li, vs[0] if len(vs) == 1 else None) for li, vs in sorted(vals.items())]
 
     # -- driver ---------------------------------------------------------------
-    def shape(self, text, features, script="DFLT", lang="dflt"):
-        """-> [(glyph, x_advance, y_advance, x_offset, y_offset)]"""
+    def shape(self, text, features, script="DFLT", lang="dflt", ppem=None, loc=None):
+        """-> [(glyph, x_advance, y_advance, x_offset, y_offset)]; `ppem` = pixels per em the
+        shaper is told (hinting Device tables act), `loc` = user coordinate on the model's axis"""
         self.trace = []
+        self.ppem, self.loc, self.upem = ppem, loc, self.m.get("upem", 1000)
         buf = [Glyph(n, self.gclass(n), i) for i, n in enumerate(text)]
         for li, val in self.active("GSUB", features, script, lang):
             self._run(buf, "GSUB", li, val)
@@ -469,14 +474,70 @@ class Interp(object):
         return None  # never applied as a nested lookup
 
     # -- GPOS -------------------------------------------------------------------
-    @staticmethod
-    def _value(g, v):
+    # A value record is (xPla, yPla, xAdv, yAdv) or (xPla, yPla, xAdv, yAdv, extra) and an anchor is
+    # (x, y) or (x, y, extra); `extra` maps a field ("xp","yp","xa","ya" / "x","y") to
+    #   {"dev": {ppem: pixels}}         hinting Device table: adds trunc(pixels * upem / ppem) at that ppem
+    #   {"var": [(user location, value), ...]}   value at the masters of the single variation axis
+    #                                   (piecewise linear in normalised space, rounded like HarfBuzz)
+    def _field(self, plain, ex):
+        if not ex:
+            return plain
+        v = plain
+        var = ex.get("var")
+        if var and self.loc is not None:
+            v = self._var_value(var)
+        dev = ex.get("dev")
+        if dev and self.ppem:
+            px = dev.get(self.ppem, 0)
+            if px:
+                q = abs(px) * self.upem // self.ppem
+                v += q if px > 0 else -q
+        return v
+
+    def _norm(self, u):
+        from fractions import Fraction as F
+
+        tag, lo, df, hi = self.m["axis"]
+        u = F(min(max(u, lo), hi))
+        if u < df:
+            return -(df - u) / F(df - lo)
+        if u > df:
+            return (u - df) / F(hi - df)
+        return F(0)
+
+    def _var_value(self, masters):
+        """One axis, masters on a line: the variation model is piecewise linear through the
+        masters (normalised space); HarfBuzz adds roundf(delta) to the default value."""
+        pts = sorted((self._norm(u), v) for u, v in masters)
+        t = self._norm(self.loc)
+        dflt = [v for n_, v in pts if n_ == 0]
+        if not dflt:
+            raise Undetermined("variable value without a default master")
+        if t < pts[0][0] or t > pts[-1][0]:
+            raise Undetermined("location outside the masters")
+        for (a, va), (b, vb) in zip(pts, pts[1:]):
+            if a <= t <= b and b > a:
+                d = va + (vb - va) * (t - a) / (b - a) - dflt[0]
+                frac = abs(d) - int(abs(d))
+                if abs(frac - F_HALF) < F_EPS:
+                    raise Undetermined("delta at a rounding tie")
+                r = int(abs(d) + F_HALF)
+                return dflt[0] + (r if d >= 0 else -r)
+        return pts[0][1]
+
+    def _value(self, g, v):
         if v is None:
             return
-        g.xo += v[0]
-        g.yo += v[1]
-        g.xa += v[2]
+        ex = v[4] if len(v) > 4 and v[4] else {}
+        g.xo += self._field(v[0], ex.get("xp"))
+        g.yo += self._field(v[1], ex.get("yp"))
+        g.xa += self._field(v[2], ex.get("xa"))
         # v[3] (YAdvance) does not act on horizontal text
+
+    def _anchor(self, a):
+        if len(a) > 2 and a[2]:
+            return self._field(a[0], a[2].get("x")), self._field(a[1], a[2].get("y"))
+        return a[0], a[1]
 
     def _k_spos(self, buf, idx, lk, fl, val, nest, table, li):
         v = lk["values"].get(buf[idx].name)
@@ -530,8 +591,8 @@ class Interp(object):
         prec = lk["anchors"].get(p.name)
         if prec is None or prec[1] is None:
             return None
-        ex, ey = prec[1]
-        nx, ny = rec[0]
+        ex, ey = self._anchor(prec[1])
+        nx, ny = self._anchor(rec[0])
         p.xa = ex + p.xo
         d = nx + g.xo
         g.xa -= d
@@ -566,6 +627,7 @@ class Interp(object):
 
     def _attach(self, buf, idx, j, banchor, manchor):
         g = buf[idx]
+        banchor, manchor = self._anchor(banchor), self._anchor(manchor)
         g.xo = banchor[0] - manchor[0]
         g.yo = banchor[1] - manchor[1]
         g.atype = 1
@@ -699,6 +761,7 @@ class _Walker(object):
         self.cov_cache = {}
         self.cd_cache = {}
         self.lookup_refs = []
+        self.extents = {}     # start -> (end, kind) of Device / Anchor / Coverage / ClassDef / CaretValue objects
 
     # -- primitives
     def bad(self, what):
@@ -709,6 +772,23 @@ class _Walker(object):
             self.bad("%s [%d,+%d) outside the table (%d bytes)" % (what, pos, size, self.n))
         if pos + size > self.max_end:
             self.max_end = pos + size
+
+    def extent(self, pos, size, kind):
+        end = pos + size
+        old = self.extents.get(pos)
+        if old is None or old[0] < end:
+            self.extents[pos] = (end, kind)
+
+    def check_extents(self):
+        """No object may begin inside another one (identical, i.e. shared, objects are fine)."""
+        last_start, last_end, last_kind = -1, -1, None
+        for start in sorted(self.extents):
+            end, kind = self.extents[start]
+            if start < last_end:
+                self.path = [self.tag]
+                self.bad("%s at %d begins inside the %s at [%d,%d)" % (kind, start, last_kind, last_start, last_end))
+            if end > last_end:
+                last_start, last_end, last_kind = start, end, kind
 
     def u16(self, pos):
         self.need(pos, 2)
@@ -759,6 +839,7 @@ class _Walker(object):
                 if any(g[i] >= g[i + 1] for i in range(cnt - 1)):
                     self.bad("coverage format 1 glyph ids not strictly increasing")
                 res = cnt
+                self.extent(pos, 4 + 2 * cnt, "Coverage")
             elif fmt == 2:
                 cnt = self.u16(pos + 2)
                 r = self.u16s(pos + 4, 3 * cnt)
@@ -781,6 +862,7 @@ class _Walker(object):
                 if spans != sorted(spans):
                     self.stats["Coverage.unsorted-indices"] += 1
                 res = total
+                self.extent(pos, 4 + 6 * cnt, "Coverage")
             else:
                 self.bad("coverage format %d" % fmt)
             self.stats["Coverage.format%d" % fmt] += 1
@@ -797,6 +879,7 @@ class _Walker(object):
                 cnt = self.u16(pos + 4)
                 vals = self.u16s(pos + 6, cnt)
                 res = max(vals) if vals else 0
+                self.extent(pos, 6 + 2 * cnt, "ClassDef")
             elif fmt == 2:
                 cnt = self.u16(pos + 2)
                 r = self.u16s(pos + 4, 3 * cnt)
@@ -807,6 +890,7 @@ class _Walker(object):
                         self.bad("class range %d (%d-%d) out of order" % (i, s, e))
                     last = e
                     res = max(res, c)
+                self.extent(pos, 4 + 6 * cnt, "ClassDef")
             else:
                 self.bad("ClassDef format %d" % fmt)
             self.stats["ClassDef.format%d" % fmt] += 1
@@ -822,12 +906,18 @@ class _Walker(object):
                 per = {1: 8, 2: 4, 3: 2}[f]
                 words = (e - s + 1 + per - 1) // per
                 self.need(pos + 6, 2 * words, "device deltas")
+                self.extent(pos, 6 + 2 * words, "Device")
+                self.stats["Device.format%d" % f] += 1
             elif f != 0x8000:
                 self.bad("device deltaFormat %#x" % f)
+            else:
+                self.extent(pos, 6, "VariationIndex")
+                self.stats["VariationIndex"] += 1
 
     def anchor(self, pos):
         with self.at("Anchor@%d" % pos):
             fmt = self.u16(pos)
+            self.extent(pos, {1: 6, 2: 8, 3: 10}.get(fmt, 2), "Anchor")
             if fmt == 1:
                 self.need(pos, 6)
             elif fmt == 2:
@@ -895,9 +985,78 @@ class _Walker(object):
                 if li >= self.nlookups:
                     self.path = path
                     self.bad("lookup index %d >= LookupCount %d" % (li, self.nlookups))
+        self.check_extents()
         self.stats["lookups"] = self.nlookups
         self.stats["bytes"] = self.n
         self.stats["max_reached"] = self.max_end
+        return self.stats
+
+    def walk_gdef(self):
+        with self.at("GDEF"):
+            major, minor = self.u16s(0, 2)
+            if major != 1 or minor not in (0, 2, 3):
+                self.bad("version %d.%d" % (major, minor))
+            gcd, al, lcl, macd = self.u16s(4, 4)
+            if gcd:
+                with self.at("GlyphClassDef"):
+                    if self.classdef(gcd) > 4:
+                        self.bad("glyph class > 4")
+            if macd:
+                with self.at("MarkAttachClassDef"):
+                    self.classdef(macd)
+            if al:
+                with self.at("AttachList"):
+                    n = self.coverage(self.off(al, al, name="coverage offset"))
+                    cnt = self.u16(al + 2)
+                    if cnt != n:
+                        self.bad("AttachList glyphCount %d != coverage %d" % (cnt, n))
+                    for i in range(cnt):
+                        ap = self.off(al, al + 4 + 2 * i, name="AttachPoint offset")
+                        self.u16s(ap + 2, self.u16(ap))
+            if lcl:
+                with self.at("LigCaretList"):
+                    n = self.coverage(self.off(lcl, lcl, name="coverage offset"))
+                    cnt = self.u16(lcl + 2)
+                    if cnt != n:
+                        self.bad("LigGlyphCount %d != coverage %d" % (cnt, n))
+                    for i in range(cnt):
+                        lg = self.off(lcl, lcl + 4 + 2 * i, name="LigGlyph offset")
+                        cc = self.u16(lg)
+                        for j in range(cc):
+                            cv = self.off(lg, lg + 2 + 2 * j, name="CaretValue offset")
+                            with self.at("LigGlyph[%d]/CaretValue[%d]" % (i, j)):
+                                fmt = self.u16(cv)
+                                self.stats["CaretValue.format%d" % fmt] += 1
+                                if fmt in (1, 2):
+                                    self.need(cv, 4)
+                                    self.extent(cv, 4, "CaretValue")
+                                elif fmt == 3:
+                                    self.need(cv, 6)
+                                    self.extent(cv, 6, "CaretValue")
+                                    o = self.u16(cv + 4)
+                                    if o:
+                                        self.device(cv + o)
+                                else:
+                                    self.bad("CaretValue format %d" % fmt)
+            if minor >= 2:
+                mgs = self.u16(12)
+                if mgs:
+                    with self.at("MarkGlyphSetsDef"):
+                        if self.u16(mgs) != 1:
+                            self.bad("MarkGlyphSets format")
+                        cnt = self.u16(mgs + 2)
+                        for i in range(cnt):
+                            o = self.u32(mgs + 4 + 4 * i)
+                            if not o or mgs + o >= self.n:
+                                self.bad("mark glyph set coverage offset")
+                            self.coverage(mgs + o)
+            if minor >= 3:
+                vs = self.u32(14)
+                if vs:
+                    self.need(vs, 8, "ItemVariationStore")
+                    self.stats["VarStore"] += 1
+        self.check_extents()
+        self.stats["bytes"] = self.n
         return self.stats
 
     def scriptlist(self, pos, nfeat):
@@ -1259,8 +1418,10 @@ class _Walker(object):
 
 
 def walk_layout(data, tag):
-    """Walk compiled GSUB/GPOS bytes; -> Counter of statistics, raises BadLayout."""
+    """Walk compiled GSUB/GPOS/GDEF bytes; -> Counter of statistics, raises BadLayout."""
     try:
+        if tag == "GDEF":
+            return _Walker(bytes(data), tag).walk_gdef()
         return _Walker(bytes(data), tag).walk()
     except _struct.error as e:  # pragma: no cover  (need() guards every read)
         raise BadLayout("struct error %s" % e, [tag])
